@@ -29,7 +29,7 @@ declare void @llvm.dbg.value(metadata, metadata, metadata)
 
 !0 = !{i32 2, !"Dwarf Version", i32 4}
 !1 = !{i32 2, !"Debug Info Version", i32 3}
-!2 = !{!"handwritten"}
+!2 = !{!"hand\5Cwritten \22v1\22"}
 !3 = distinct !{!3, !4}
 !4 = !{!"function_entry_count", i64 10}
 !5 = !{i32 0, i32 100}
